@@ -10,9 +10,9 @@ import (
 
 func init() {
 	checks["C05"] = func(run *report.Run) error {
-		run.Rule = "one WebService, one route GET /w/x whose handler calls resp.WriteEntity(value); Produces = 1–4 distinct registered media types (built-in JSON/XML, custom JSON/XML accessors, a custom text/csv EntityReaderWriter, and names that contain / are contained in other registered names: application/x — a substring of application/xml —, application/json-patch+json and application/xml-dtd — containing the built-in names —, text/csv-schema — containing the custom text/csv; the custom writers are registered in a seed-dependent order, in two steps during the stream); in 25 % of the cases a Content-Type is already on the response when the entity is written (a registered type, a produced type with a charset parameter, or an unrelated one such as text/plain; charset=utf-8), set by the handler (AddHeader or Header().Set before WriteEntity) or by a container / web-service / route filter — the answer must still carry the negotiated type, once; Accept from a grammar (absent, empty, 1–6 elements: produced/registered/other/*/*/partial wildcards/garbage media, q with 0–3 decimals, '.5', '1.', integers, or unparsable text, parameters before and after q, a second q, empty elements), spelled twice with different optional whitespace (space, tab) around , ; = ; DefaultResponseContentType ∈ {unset, JSON, XML, ZIP, text/plain}; CurlyRouter or RouterJSR311; each spelling dispatched 3× through Container.Dispatch; observed: status, whether the handler ran, Content-Type, body decodes with that codec. A case is non-trivial when the router admitted at least one spelling; distinct = distinct inputs. Before the stream: the former witnesses of the repaired finding F07 (no Accept header, default JSON on an XML-only route; default ZIP on a JSON-only route) are re-executed and must be answered as the property demands (replays/F07.json is replayed as a regression: today's answers satisfy the predicate, the answers recorded before the repair do not); the former first witness of F07b (Accept: application/json;q=x,application/xml on a JSON-only route, answered in Go map iteration order until 8b400b4) is re-executed 22 times and must be answered application/json on every dispatch (replays/F07b-order.json); the three witnesses of the open finding F07b (application/xml,application/json;q=x on a JSON-only route → application/xml; */*;q=x with a default type that is not produced / has no writer) are re-executed and must still fail. The only class that excuses a failing case is F07b, and only when the real answers are the model's (one writer since 8b400b4); the class of the repaired F07 is measured in the distribution and excuses nothing"
+		run.Rule = "one WebService, one route GET /w/x whose handler calls resp.WriteEntity(value); Produces = 1–4 distinct registered media types (built-in JSON/XML, custom JSON/XML accessors, a custom text/csv EntityReaderWriter, and names that contain / are contained in other registered names: application/x — a substring of application/xml —, application/json-patch+json and application/xml-dtd — containing the built-in names —, text/csv-schema — containing the custom text/csv; the custom writers are registered in a seed-dependent order, in two steps during the stream); in 25 % of the cases a Content-Type is already on the response when the entity is written (a registered type, a produced type with a charset parameter, or an unrelated one such as text/plain; charset=utf-8), set by the handler (AddHeader or Header().Set before WriteEntity) or by a container / web-service / route filter — the answer must still carry the negotiated type, once; Accept from a grammar (absent, empty, 1–6 elements: produced/registered/other/*/*/partial wildcards/garbage media, q with 0–3 decimals, '.5', '1.', integers, or unparsable text, parameters before and after q, a second q, empty elements), spelled twice with different optional whitespace (space, tab) around , ; = ; DefaultResponseContentType ∈ {unset, JSON, XML, ZIP, text/plain}; CurlyRouter or RouterJSR311; each spelling dispatched 3× through Container.Dispatch — on a container created for the request, or (25 % of the cases) on a route object WITH A HISTORY: container, web service and route are created once, the route additionally produces 1–2 types that have no writer yet (fresh names, some containing a registered name; half of the time in front of the list), 1–5 other requests from the same grammar are served on it, RegisterEntityAccessor is called for the late types at some point of that history (60 % after all of the earlier requests), then the judged request — in half of these cases rewritten to prefer a late type — is dispatched on the same container and must be answered as the registry of that moment demands (the model is told that registry and nothing of the history; the route is handed its own copy of the Produces list); observed: status, whether the handler ran, Content-Type, body decodes with that codec. A case is non-trivial when the router admitted at least one spelling; distinct = distinct inputs. Before the stream: the former witnesses of the repaired finding F07 (no Accept header, default JSON on an XML-only route; default ZIP on a JSON-only route) are re-executed and must be answered as the property demands (replays/F07.json is replayed as a regression: today's answers satisfy the predicate, the answers recorded before the repair do not); the former first witness of F07b (Accept: application/json;q=x,application/xml on a JSON-only route, answered in Go map iteration order until 8b400b4) is re-executed 22 times and must be answered application/json on every dispatch (replays/F07b-order.json); the three witnesses of the open finding F07b (application/xml,application/json;q=x on a JSON-only route → application/xml; */*;q=x with a default type that is not produced / has no writer) are re-executed and must still fail. The only class that excuses a failing case is F07b, and only when the real answers are the model's (one writer since 8b400b4); the class of the repaired F07 is measured in the distribution and excuses nothing"
 		run.Trusted = []string{"strconv.ParseFloat modelled on decimal literals D+, D+., D*.D{1,3} as Nat thousandths; every other text is unparsable in the model (the generator never emits signs, exponents, inf/nan, hex floats, underscores, 4+ fraction digits; checked per case against ParseFloat)",
-			"the registry holds exactly the built-in JSON/XML accessors plus the seven the harness registers; each writer writes its registration key as Content-Type",
+			"the registry holds exactly the built-in JSON/XML accessors plus the seven the harness registers, plus the late writers of the histories (each under a name that is new in the process and neither contains nor is contained in a late name of another case, so that the model is told only those of the case); each writer writes its registration key as Content-Type",
 			"the registry is a Go map: its keys are distinct, which is all the model needs since 8b400b4 (the reverse lookup of accessorAt is a function of the value, C05_function; the stream registers its custom writers in a seed-dependent order)"}
 		run.Assumptions = []string{"Produces non-empty, every produced type has a registered writer, media types free of , ; blank tab and not */* (Spec.wfMime, asserted per case by the driver)",
 			"the request passed the router's own Accept test (the handler ran); requests the router rejects are only compared with the model's routerAdmits",
